@@ -35,17 +35,20 @@ def no_network():
 class Wallet:
     """m-of-n wallet (n = 1 for the single-key types) of HD keys; keys derived at base/<branch>/<index>"""
 
-    def __init__(self, seeds, m, stype, base_path):
+    def __init__(self, seeds, m, stype, base_path, base_paths=None):
         from buidl.hd import HDPrivateKey
 
         self.m, self.n, self.stype, self.base_path = m, len(seeds), stype, base_path
+        # every cosigner may have exported his xpub at his OWN account path (different depths); default: one path for all
+        self.base_paths = list(base_paths) if base_paths else [base_path] * len(seeds)
         self.roots = [HDPrivateKey.from_seed(s, network=NET) for s in seeds]
         self.xfps = [r.fingerprint().hex() for r in self.roots]
-        self.accounts = [r.traverse(base_path) for r in self.roots]  # HDPrivateKey at the base path
+        self.accounts = [r.traverse(bp) for r, bp in zip(self.roots, self.base_paths)]  # HDPrivateKey at the base path
+        self.map_order = list(range(len(seeds)))     # insertion order of hdpubkey_map()
         self._cache = {}
 
-    def root_path(self, branch, index):
-        return f"{self.base_path}/{branch}/{index}"
+    def root_path(self, branch, index, k=0):
+        return f"{self.base_paths[k]}/{branch}/{index}"
 
     def child_priv(self, k, branch, index):
         key = (k, branch, index)
@@ -88,7 +91,7 @@ class Wallet:
         from buidl.psbt import NamedHDPublicKey
 
         return NamedHDPublicKey.from_hd_pub(child_hd_pub=self.child_priv(k, branch, index).pub,
-                                            xfp_hex=self.xfps[k], path=self.root_path(branch, index))
+                                            xfp_hex=self.xfps[k], path=self.root_path(branch, index, k))
 
     def global_xpub(self, k):
         from buidl.psbt import NamedHDPublicKey
@@ -98,18 +101,31 @@ class Wallet:
         clone = HDPublicKey(point=pub.point, chain_code=pub.chain_code, depth=pub.depth,
                             parent_fingerprint=pub.parent_fingerprint, child_number=pub.child_number,
                             network=pub.network, pub_version=pub.pub_version)
-        return NamedHDPublicKey.from_hd_pub(child_hd_pub=clone, xfp_hex=self.xfps[k], path=self.base_path)
+        return NamedHDPublicKey.from_hd_pub(child_hd_pub=clone, xfp_hex=self.xfps[k], path=self.base_paths[k])
 
     def hdpubkey_map(self):
         from buidl.hd import HDPublicKey
 
-        return {self.xfps[k]: HDPublicKey.parse(self.accounts[k].xpub()) for k in range(self.n)}
+        return {self.xfps[k]: HDPublicKey.parse(self.accounts[k].xpub()) for k in self.map_order}
 
 
-def make_wallet(rng, m, n, stype):
+def make_wallet(rng, m, n, stype, mixed_depth=False):
     base = {"p2sh": "m/45'/0", "p2wsh": "m/48'/1'/0'/2'", "p2sh-p2wsh": "m/48'/1'/0'/1'",
             "p2pkh": "m/44'/1'/0'", "p2wpkh": "m/84'/1'/0'", "p2sh-p2wpkh": "m/49'/1'/0'"}[stype]
-    return Wallet([rbytes(rng, 16) for _ in range(n)], m, stype, base)
+    seeds = [rbytes(rng, 16) for _ in range(n)]
+    if not mixed_depth:
+        return Wallet(seeds, m, stype, base)
+    # each cosigner's account path has its own length 1..5 (hardened and plain components), so the xpubs have
+    # different depths; the caller's hdpubkey_map is built in a shuffled order
+    paths = []
+    for _ in range(n):
+        comps = [rng.choice(["45'", "48'", "1'", "0'", "2'", "0", "7"]) for _ in range(rng.randrange(1, 6))]
+        paths.append("m/" + "/".join(comps))
+    if n > 1 and len({len(p_.split("/")) for p_ in paths}) == 1:
+        paths[-1] = paths[-1] + "/3" if len(paths[-1].split("/")) < 6 else "/".join(paths[-1].split("/")[:-1])
+    w = Wallet(seeds, m, stype, paths[0], base_paths=paths)
+    rng.shuffle(w.map_order)
+    return w
 
 
 def funding_tx(rng, outs, segwit=False):
@@ -161,6 +177,18 @@ def split_amounts(rng, total, n_out, change_at, zero_out):
     return amounts
 
 
+def spend_spk(rng, payees, same_payee):
+    """the scriptPubKey of the next spend output: the first `same_payee` spend outputs all pay ONE address"""
+    from buidl.script import P2WPKHScriptPubKey, P2PKHScriptPubKey
+
+    if payees and len(payees) < same_payee:
+        spk = payees[0]
+    else:
+        spk = rng.choice([P2WPKHScriptPubKey, P2PKHScriptPubKey])(rbytes(rng, 20))
+    payees.append(spk)
+    return spk
+
+
 def branch_index(root_path):
     """(branch, index) of a wallet key's root path `<base>/<branch>/<index>`"""
     comps = root_path.split("/")
@@ -168,7 +196,7 @@ def branch_index(root_path):
 
 
 def build_psbt(rng, w, n_inputs=1, n_spend=1, with_change=True, global_xpubs=False, unknowns=False,
-               segwit_flag=False, fee=None, defer=False, same_addr=False, change_at=None, zero_out=None):
+               segwit_flag=False, fee=None, defer=False, same_addr=False, change_at=None, zero_out=None, same_payee=0):
     """create + update through PSBT.create (tx_lookup / pubkey_lookup / redeem_lookup / witness_lookup)"""
     from buidl.tx import Tx, TxIn, TxOut
     from buidl.psbt import PSBT
@@ -211,6 +239,7 @@ def build_psbt(rng, w, n_inputs=1, n_spend=1, with_change=True, global_xpubs=Fal
     r_at = rng.randrange(0, n_out) if with_change else None
     change_at = (change_at % n_out if change_at is not None else r_at) if with_change else None
     amounts = split_amounts(rng, remaining, n_out, change_at, zero_out)
+    payees = []
     for o in range(n_out):
         amt = amounts[o]
         if o == change_at:
@@ -226,7 +255,7 @@ def build_psbt(rng, w, n_inputs=1, n_spend=1, with_change=True, global_xpubs=Fal
                 witness_lookup[ws.sha256()] = ws
             b.change_pos, b.change_index = o, cidx
         else:
-            spk = rng.choice([P2WPKHScriptPubKey, P2PKHScriptPubKey])(rbytes(rng, 20))
+            spk = spend_spk(rng, payees, same_payee)
         tx_outs.append(TxOut(amt, spk))
     tx_obj = Tx(rng.choice([1, 2]), tx_ins, tx_outs, rng.choice([0, 0, 650000]), network=NET, segwit=segwit_flag)
     hd_pubs = {}
